@@ -128,9 +128,13 @@ def main():
         timed_out = True
         ctx.notes.append('hard time budget reached')
     except Exception as e:
-        print('machinery error:', repr(e)); traceback.print_exc()
-        ctx.close()
-        return 2
+        # the harness could not observe the implementation the way it can on the unchanged tree (an attribute is
+        # missing, a call raises, a value has another type ...): the model/code tie is broken at this point
+        tb = traceback.format_exc()
+        print('harness exception while observing the implementation:', repr(e)); print(tb)
+        ctx.disagreements.append({'suite': 'harness-exception', 'case': ctx.samples[-1]['case'] if ctx.samples else None,
+                                  'what': 'the harness raised while driving/observing the implementation', 'diff': repr(e),
+                                  'model': '', 'impl': tb[-1500:]})
     # ---- verdict
     open_keys = {k['key']: k for k in known if k.get('status') == 'open'}
     known_seen = {}
